@@ -55,6 +55,8 @@ def render(op):
     if k == "dvset":
         name = KINDS[t[1]][1]
         return "print(E(function(){ DV.set%s(%s, %s, %s); return 'ok'; }));" % (name, t[2], js_val(t[4]), "true" if t[3] == "1" else "false")
+    if k == "fill":
+        return "print(E(function(){ V[%s].fill(%s, %s%s); return 'ok'; }));" % (t[1], js_val(t[2]), t[3], "" if t[4] == "-" else ", " + t[4])
     if k == "cw":
         return "print(E(function(){ V[%s].copyWithin(%s, %s%s); return 'ok'; }));" % (t[1], t[2], t[3], "" if t[4] == "-" else ", " + t[4])
     if k == "scopy":
@@ -115,8 +117,12 @@ def gen_history(r, n_ops):
             else:
                 val = "d:" + dbits(INTERESTING[r() % len(INTERESTING)])
             ops.append("set %d %d %s" % (r() % nviews, r() % 7, val))
-        elif c < 86 and nviews > 1:
+        elif c < 85 and nviews > 1:
             ops.append("%s %d %d %d" % (["copy", "copy", "scopy"][r() % 3], r() % nviews, r() % nviews, r() % 3))
+            ops.append("bytes")
+        elif c < 87 and nviews:
+            val = "n:%d" % (r() % 300 - 100) if r() % 6 == 0 else "d:" + dbits(INTERESTING[r() % len(INTERESTING)])
+            ops.append("fill %d %s %d %s" % (r() % nviews, val, r() % 12 - 5, "-" if r() % 2 else str(r() % 14 - 6)))
             ops.append("bytes")
         elif c < 89 and nviews:
             # copyWithin: overlapping either way, negative (relative) and clamped arguments, optional end
@@ -235,5 +241,5 @@ def run(ck):
         "operation_mix": op_kinds,
         "error_kinds_hit": errors,
         "samples": [kept_ops[0][:12], kept_ops[-1][:12]],
-        "partial": ["Float32/Float16 elements, fill/subarray/slice/sort, SharedArrayBuffer and Atomics are not modelled; copyWithin (any integer arguments) and set(typedArray) are modelled"],
+        "partial": ["Float32/Float16 elements, subarray/slice/sort, SharedArrayBuffer and Atomics are not modelled; fill and copyWithin (any integer arguments) and set(typedArray) are modelled"],
     })
